@@ -226,6 +226,15 @@ def check_tree(root, rec, mask=None):
     if r.odd:
         rec.monitor('trees_with_none_body_or_args')
     kinds = set()
+    # exactly once: no object may receive two callbacks (an object shared between two parents is reachable twice)
+    seen = {}
+    for i, (gname, gobj, gkw, gtok) in enumerate(got):
+        if gobj is None:
+            continue
+        if id(gobj) in seen:
+            return 'callbacks %d and %d visit the same object %s (%s): it is reachable from two places of the tree' % (
+                seen[id(gobj)], i, _d(gobj), gname), None
+        seen[id(gobj)] = i
     for i in range(max(len(got), len(want))):
         if i >= len(got):
             return 'object %d (%s of %s) was never visited; %d callbacks, expected %d' % (
